@@ -80,14 +80,17 @@ def main(path):
             from checks import corrupt
             from . import catalog, mutate, emusrv
             cat = catalog.load_events()
-            tr = mutate.base_traces({m: v["version"] for m, v in cat.items()})[r["base"]]
+            tr = mutate.base_traces({m: v["version"] for m, v in cat.items()}, for_c19=True)[r["base"]]
             for (label, files, verdict) in mutate.operators(tr, "thorough", for_c19=True):
                 if label == r["corruption"]:
                     td = sc.sub("t")
                     corrupt.write_files(td, files)
                     for t in ([r["tool"].split()[0]] if r.get("tool") else ["ovniemu", "ovnidump", "ovnitop", "ovnisort"]):
                         exe = build.tool_heapbuf("sanx", t)
-                        rc, out, err = emusrv.run_tool(exe, (["-l"] if t == "ovniemu" else []) + [td], timeout=10)
+                        args = r["args"] if r.get("args") is not None and r.get("tool") else (["-l"] if t == "ovniemu" else [])
+                        corrupt.write_files(td, files)
+                        rc, out, err = emusrv.run_tool(exe, list(args) + [td], timeout=10,
+                                                       env_extra={"ASAN_OPTIONS": "detect_leaks=0:abort_on_error=1:allocator_may_return_null=1"})
                         print(t, "exit", rc, "|", err[-400:].replace("\n", " / "))
                     return 0
             print("corruption label not found (grammar cases are not replayable by label)")
